@@ -20,8 +20,8 @@ def check(ctx):
         leg('quick', 2, 45)
         leg('ctor3', 1, 20)
     else:
-        leg('quick,more', 5, 700)
-        leg('ctor3', 2, 400)
+        leg('quick,more', 5, 450)
+        leg('ctor3', 2, 250)
     return ctx.finish(RULE, ["sequential consistency at instrumented accesses (no weak-memory effects)",
                              "gcc -fsanitize=thread instrumentation reports every access to the watched objects",
                              "threads respect the ownership contract (never release a reference they do not own)"])
